@@ -602,7 +602,7 @@ static void explore_custom(FrameBase& f, const Gram& g, const ref::LR1& L) {
             ctr["parses"]++; ctr["C18.evals"]++; ++scripts_here;
             std::string script_txt; for (auto& a : g_script.asks) script_txt += "@" + std::to_string(a.off) + (a.answer < 0 ? "=fail " : "=(" + std::to_string(a.answer / 64) + "," + std::to_string(a.answer % 64) + ") ");
             std::string in_vis; for (char c : w) in_vis += c == '\n' ? std::string("\\n") : std::string(1, c);
-            auto viol = [&](const std::string& kind, const std::string& det) { add_viol("C18", kind, f, g, in_vis, "script " + script_txt + ": " + det); };
+            auto viol = [&](const std::string& kind, const std::string& det) { add_viol("C18", kind, f, g, w, "input '" + in_vis + "' script " + script_txt + ": " + det); };
             // (1) where the lexer was asked
             std::vector<ref::Tok> toks; bool lexfail = false; size_t p = 0; bool pos_ok = true;
             auto skip = [&]() { while (p < w.size() && ws_default((unsigned char)w[p])) ++p; };
